@@ -201,3 +201,208 @@ pub fn render_probes(ctx: &mut Ctx, ops: &[&str]) {
         }
     }
 }
+
+/// Width probes: operand lists, collections, strings and key lists far beyond every small-size
+/// regime (15 / 16-bit counts, typical allocation caps, recursion over the width of a list), with
+/// position-sensitive content so that a truncated, capped or mis-chunked traversal changes the answer.
+pub fn width_probes(ctx: &mut Ctx) {
+    let prop = ctx.prop.clone();
+    let null = Value::Null;
+    for n in crate::alphabet::width_classes(ctx.tier_thorough) {
+        if !ctx.mine() {
+            continue;
+        }
+        let ints: Vec<Value> = (0..n).map(|i| json!(i)).collect();
+        let dv = json!({"xs": ints});
+        match prop.as_str() {
+            "C05" => {
+                // a flat chain of n falsy conditions, then the deciding one (with and without a final else)
+                let mut args: Vec<Value> = Vec::with_capacity(2 * n + 1);
+                for i in 0..n {
+                    args.push(json!({"==": [{"var": "x"}, i]}));
+                    args.push(json!(i));
+                }
+                ctx.check("width:if:no-else", &json!({"if": args}), &json!({"x": -1}));
+                ctx.check("width:if:last-clause", &json!({"if": args}), &json!({"x": n - 1}));
+                let mut a2 = args.clone();
+                a2.push(json!("else"));
+                ctx.check("width:if:else", &json!({"if": a2}), &json!({"x": -1}));
+                ctx.check("width:?:", &json!({"?:": a2}), &json!({"x": -1}));
+                let falsy: Vec<Value> = (0..n).map(|i| if i + 1 == n { json!("last") } else { json!(0) }).collect();
+                ctx.check("width:or", &json!({"or": falsy}), &null);
+                let truthy: Vec<Value> = (0..n).map(|i| if i + 1 == n { json!(0) } else { json!(i + 1) }).collect();
+                ctx.check("width:and", &json!({"and": truthy}), &null);
+            }
+            "C13" => {
+                let o = ctx.check("width:map", &json!({"map": [{"var": "xs"}, {"+": [{"var": ""}, 1]}]}), &dv);
+                if let Some(Value::Array(a)) = o.ok() {
+                    if a.len() != n {
+                        ctx.law_fail("law:map-length", &json!({"map": [{"var": "xs"}, "..."]}), &json!({"xs": format!("[0..{})", n)}), format!("length {}", n), format!("length {}", a.len()));
+                    }
+                }
+                ctx.check("width:map:error-in-last", &json!({"map": [{"var": "xs"}, {"/": [1, {"-": [{"var": ""}, n - 1]}]}]}), &dv);
+                ctx.check("width:filter", &json!({"filter": [{"var": "xs"}, {">=": [{"var": ""}, n - 2]}]}), &dv);
+                ctx.check("width:reduce", &json!({"reduce": [{"var": "xs"}, {"+": [{"var": "current"}, {"var": "accumulator"}]}, 0]}), &dv);
+                ctx.check("width:reduce:last", &json!({"reduce": [{"var": "xs"}, {"var": "current"}, "init"]}), &dv);
+                ctx.check("width:map:literal", &json!({"map": [ints, {"var": ""}]}), &null);
+            }
+            "C14" => {
+                for (k, p) in [("all", json!({"<": [{"var": ""}, n - 1]})), ("all", json!({"<": [{"var": ""}, n]})), ("some", json!({"==": [{"var": ""}, n - 1]})), ("some", json!({"==": [{"var": ""}, n]})), ("none", json!({"==": [{"var": ""}, n - 1]})), ("none", json!({">": [{"var": ""}, n]}))] {
+                    ctx.check(&format!("width:{}", k), &crate::alphabet::op(k, vec![json!({"var": "xs"}), p]), &dv);
+                }
+                let st: String = (0..n).map(|i| if i + 1 == n { 'é' } else { 'a' }).collect();
+                ctx.check("width:some:string", &json!({"some": [{"var": "s"}, {"==": [{"var": ""}, "é"]}]}), &json!({"s": st}));
+                ctx.check("width:all:string", &json!({"all": [{"var": "s"}, {"==": [{"var": ""}, "a"]}]}), &json!({"s": st}));
+            }
+            "C15" => {
+                let ops_: Vec<Value> = (0..n).map(|i| if i % 2 == 0 { json!([i]) } else { json!(i) }).collect();
+                ctx.check("width:merge:operands", &json!({"merge": ops_}), &null);
+                ctx.check("width:merge:long-array", &json!({"merge": [{"var": "xs"}, [n], {"var": "xs"}]}), &dv);
+                for nd in [json!(n - 1), json!((n - 1) as f64), json!(n), json!("0")] {
+                    ctx.check("width:in:array", &json!({"in": [nd, {"var": "xs"}]}), &dv);
+                }
+                let st: String = (0..n).map(|i| if i + 1 == n { 'é' } else { 'a' }).collect();
+                ctx.check("width:in:string", &json!({"in": ["aé", {"var": "s"}]}), &json!({"s": st}));
+                ctx.check("width:in:string:absent", &json!({"in": ["éa", {"var": "s"}]}), &json!({"s": st}));
+            }
+            "C16" => {
+                let parts: Vec<Value> = (0..n).map(|i| if i % 3 == 0 { json!("é") } else if i % 3 == 1 { json!(i) } else { json!([null]) }).collect();
+                ctx.check("width:cat:operands", &json!({"cat": parts}), &null);
+                ctx.check("width:cat:long-array", &json!({"cat": [{"var": "xs"}, "|"]}), &dv);
+                let st: String = (0..n).map(|i| ['a', 'é', '水', '😀'][i % 4]).collect();
+                let ds = json!({"s": st});
+                for (a, b) in [(json!(-3), Value::Null), (json!(n - 2), Value::Null), (json!(1), json!(-1 * (n as i64 - 3))), (json!(n / 2), json!(2))] {
+                    let mut args = vec![json!({"var": "s"}), a];
+                    if !b.is_null() {
+                        args.push(b);
+                    }
+                    ctx.check("width:substr", &json!({"substr": args}), &ds);
+                }
+            }
+            "C10" => {
+                let ones: Vec<Value> = (0..n).map(|i| if i % 2 == 0 { json!(1) } else { json!("1") }).collect();
+                for k in ["+", "*", "max", "min"] {
+                    ctx.check(&format!("width:{}", k), &crate::alphabet::op(k, ones.clone()), &null);
+                }
+                ctx.check("width:max:last", &json!({"max": (0..n).map(|i| json!(i)).collect::<Vec<_>>()}), &null);
+                ctx.check("width:+:error-last", &json!({"+": (0..n).map(|i| if i + 1 == n { json!("x") } else { json!(1) }).collect::<Vec<_>>()}), &null);
+            }
+            "C11" => {
+                ctx.check("width:var:index", &json!({"var": format!("xs.{}", n - 1)}), &dv);
+                ctx.check("width:var:index:neg", &json!({"var": format!("xs.-{}", n)}), &dv);
+                ctx.check("width:var:index:out", &json!({"var": [format!("xs.{}", n), "dflt"]}), &dv);
+                let st: String = (0..n).map(|i| if i + 1 == n { 'é' } else { 'a' }).collect();
+                ctx.check("width:var:string-index", &json!({"var": format!("s.{}", n - 1)}), &json!({"s": st}));
+                ctx.check("width:var:int-key", &json!({"var": n - 1}), &Value::Array((0..n).map(|i| json!(i)).collect()));
+            }
+            "C12" => {
+                let keys: Vec<Value> = (0..n).map(|i| json!(format!("k{}", i))).collect();
+                let d = json!({"k0": 1, format!("k{}", n - 1): null, format!("k{}", n / 2): false});
+                ctx.check("width:missing", &json!({"missing": keys}), &d);
+                // missing_some de-duplicates the absent keys by linear search (quadratic in their number: ~2 s at
+                // 32769 keys, ~17 s at 100 000); that is slow, not a hang, so the widest classes are left to missing
+                if n <= 40_000 {
+                    ctx.check("width:missing_some", &json!({"missing_some": [3, keys]}), &d);
+                    ctx.check("width:missing_some:more", &json!({"missing_some": [4, keys]}), &d);
+                }
+            }
+            _ => {}
+        }
+    }
+}
+
+/// Nested iteration: an iteration operator inside the per-element expression of another one, with
+/// exactly one argument position of the inner operator reading the outer element (its collection, its
+/// initial value) or none (data-free collection), inner collections that are empty / null / "" for
+/// some outer elements, and long outer collections whose inner iterations end early.
+pub fn nested_iteration_probes(ctx: &mut Ctx) {
+    use crate::alphabet::op;
+    let plus = json!({"+": [{"var": "current"}, {"var": "accumulator"}]});
+    let inner: Vec<Value> = vec![
+        json!({"map": [{"var": "xs"}, {"+": [{"var": ""}, 1]}]}),
+        json!({"map": [[10, 20], {"var": ""}]}),
+        json!({"reduce": [[10, 20], plus, {"var": "n"}]}),
+        json!({"reduce": [{"var": "xs"}, plus, 0]}),
+        json!({"reduce": [{"var": "xs"}, plus, {"var": "n"}]}),
+        json!({"filter": [{"var": "xs"}, {">": [{"var": ""}, 1]}]}),
+        json!({"all": [{"var": "xs"}, {">": [{"var": ""}, 0]}]}),
+        json!({"some": [{"var": "xs"}, {">": [{"var": ""}, 2]}]}),
+        json!({"none": [{"var": "xs"}, {">": [{"var": ""}, 2]}]}),
+        json!({"some": [[1, 2], {"==": [{"var": ""}, 2]}]}),
+        json!({"<": [{"reduce": [[10, 20], plus, {"var": "n"}]}, 50]}),
+        json!({"map": [{"var": "xs"}, {"var": "n"}]}),
+        json!({"all": [{"var": "s"}, {"in": [{"var": ""}, "ab"]}]}),
+        json!({"some": [{"var": "nothing"}, true]}),
+        json!({"filter": [{"var": "xs"}, {"some": [[1, 3], {"==": [{"var": ""}, 3]}]}]}),
+        json!({"reduce": [{"var": "xs"}, {"+": [{"var": "accumulator"}, {"reduce": [[1, 2], plus, {"var": "current"}]}]}, {"var": "n"}]}),
+        json!({"map": [{"map": [{"var": "xs"}, {"*": [{"var": ""}, 2]}]}, {"+": [{"var": ""}, 1]}]}),
+        json!({"if": [{"some": [{"var": "xs"}, {"+": ["x"]}]}, "t", "f"]}),
+    ];
+    let rows = json!([{"n": 1, "xs": [1, 2], "s": "ab"}, {"n": 100, "xs": [], "s": ""}, {"n": 2, "xs": [3], "s": "abc"}, {"n": 3, "xs": null, "s": null}]);
+    let d = json!({"rows": rows, "n": "OUTER", "xs": ["OUTER"], "s": "OUTER"});
+    if ctx.mine() {
+        for b in &inner {
+            ctx.edge();
+            for host in ["map", "filter", "all", "some", "none"] {
+                ctx.check(&format!("nested-iteration:{}", host), &op(host, vec![json!({"var": "rows"}), b.clone()]), &d);
+                ctx.check(&format!("nested-iteration:{}:literal-rows", host), &op(host, vec![json!({"filter": [{"var": "rows"}, true]}), b.clone()]), &d);
+            }
+            // under reduce the outer element is reached through "current"
+            let via_current = rewrite_vars(b, "current");
+            ctx.check("nested-iteration:reduce", &json!({"reduce": [{"var": "rows"}, {"merge": [{"var": "accumulator"}, [via_current]]}, []]}), &d);
+        }
+    }
+    // long outer collections whose inner iteration finds its collection empty / null / "" (leaves early)
+    for n in crate::alphabet::size_classes(ctx.tier_thorough) {
+        if !ctx.mine() {
+            continue;
+        }
+        for empty in [json!([]), json!(null), json!("")] {
+            let rows: Vec<Value> = (0..n).map(|i| if i + 1 == n { json!({"tags": ["x"], "i": i}) } else { json!({"tags": empty, "i": i}) }).collect();
+            let dd = json!({"rows": rows});
+            let q = json!({"some": [{"var": "tags"}, {"==": [{"var": ""}, "x"]}]});
+            let a = json!({"all": [{"var": "tags"}, {"==": [{"var": ""}, "x"]}]});
+            ctx.edge();
+            for host in ["none", "some", "all", "map", "filter"] {
+                ctx.check(&format!("nested-iteration:size-probe:{}", host), &op(host, vec![json!({"var": "rows"}), q.clone()]), &dd);
+                ctx.check(&format!("nested-iteration:size-probe:{}:all", host), &op(host, vec![json!({"var": "rows"}), a.clone()]), &dd);
+            }
+            ctx.check("nested-iteration:size-probe:map:filter", &json!({"map": [{"var": "rows"}, {"filter": [{"var": "tags"}, true]}]}), &dd);
+            ctx.check("nested-iteration:size-probe:map:reduce", &json!({"map": [{"var": "rows"}, {"reduce": [{"var": "tags"}, {"var": "current"}, {"var": "i"}]}]}), &dd);
+        }
+    }
+}
+
+/// {"var": "k"} -> {"var": "<prefix>.k"} at the outermost scope only (not inside nested iteration bodies).
+fn rewrite_vars(v: &Value, prefix: &str) -> Value {
+    match v {
+        Value::Object(m) if m.len() == 1 => {
+            let (k, a) = m.iter().next().unwrap();
+            if k == "var" {
+                return match a {
+                    Value::String(s) if s.is_empty() => json!({"var": prefix}),
+                    Value::String(s) => json!({"var": format!("{}.{}", prefix, s)}),
+                    other => json!({"var": other}),
+                };
+            }
+            let iter_ops = ["map", "filter", "reduce", "all", "some", "none"];
+            if iter_ops.contains(&k.as_str()) {
+                if let Value::Array(args) = a {
+                    // the collection (and reduce's initial value) belong to the outer scope, the body to the inner one
+                    let mut out = Vec::new();
+                    for (i, x) in args.iter().enumerate() {
+                        if i == 1 {
+                            out.push(x.clone());
+                        } else {
+                            out.push(rewrite_vars(x, prefix));
+                        }
+                    }
+                    return json!({k.clone(): out});
+                }
+            }
+            json!({k.clone(): rewrite_vars(a, prefix)})
+        }
+        Value::Array(a) => Value::Array(a.iter().map(|x| rewrite_vars(x, prefix)).collect()),
+        x => x.clone(),
+    }
+}
